@@ -31,7 +31,7 @@ func recvName(fn *ssa.Function) string {
 }
 
 // rawName is the declared name, ignoring role aliases.
-func rawName(fn *ssa.Function) string { return shortName(fn.String()) }
+func rawName(fn *ssa.Function) string { return canonRecv(shortName(fn.String())) }
 
 func bodyHas(fn *ssa.Function, withClosuresToo bool, f func(ssa.Instruction) bool) bool {
 	fns := []*ssa.Function{fn}
